@@ -28,6 +28,8 @@ func propC13(p *Prog, r *Report) {
 
 	c13RegistryFirst(p, r)
 	c13RegistryOrigin(p, r)
+	r.Rule("C13.e", "registry discipline: only Begin calls the registry's Store (a finished transaction is never re-registered); every field of the registry that Get consults is updated by Delete")
+	c13RegistryDiscipline(p, r, "C13.e")
 	c07CommitOrder(p, r, "C13.b")
 	c13Rollback(p, r)
 	r.Rule("C13.d", "each Begin yields an independent transaction: generated id, requested level, fresh snapshot point, registry error returned (shared with C02.f)")
@@ -212,6 +214,9 @@ func propC14(p *Prog, r *Report) {
 
 	c14Consumed(p, r)
 	c14Producers(p, r)
+	c14ReturnsAccumulated(p, r, "C14.b")
+	r.Rule("C14.e", "per-iteration capture: no function literal handed on inside a loop (a background job) captures a variable declared outside the loop and reassigned in it")
+	loopClosureCapture(p, r, "C14.e")
 	c04DeleteOrder(p, r, "C14.c")
 	tmp := NewReport("C16", r.Tier, r.Seed)
 	c16Handoff(p, tmp)
